@@ -37,9 +37,15 @@ def seed():
 
 def sh(cmd, timeout=3600, cwd=None, input=None, env=None):
     t0 = time.time()
-    p = subprocess.run(cmd, shell=isinstance(cmd, str), cwd=cwd, input=input, env=env,
-                       stdout=subprocess.PIPE, stderr=subprocess.STDOUT, timeout=timeout,
-                       universal_newlines=True, errors="replace")
+    try:
+        p = subprocess.run(cmd, shell=isinstance(cmd, str), cwd=cwd, input=input, env=env,
+                           stdout=subprocess.PIPE, stderr=subprocess.STDOUT, timeout=timeout,
+                           universal_newlines=True, errors="replace")
+    except subprocess.TimeoutExpired as e:
+        out = e.stdout or ""
+        if isinstance(out, bytes):
+            out = out.decode(errors="replace")
+        return -999, out + "\nTIMEOUT after %ds (hang / livelock)\n" % timeout, time.time() - t0
     return p.returncode, p.stdout, time.time() - t0
 
 
